@@ -576,6 +576,10 @@ func validateValueForEncoding(element InfoElementWithValue) error {
 		if v := element.GetIPAddressValue(); v.To16() == nil {
 			return fmt.Errorf("provided IPv6 address %v is not of correct length", v)
 		}
+	case DateTimeMicroseconds, DateTimeNanoseconds:
+		return fmt.Errorf("element %s: API does not support micro and nano seconds types yet", element.GetName())
+	case BasicList, SubTemplateList, SubTemplateMultiList, InvalidDataType:
+		return fmt.Errorf("element %s: API supports only valid information elements with datatypes given in RFC7011", element.GetName())
 	}
 	return nil
 }
